@@ -78,6 +78,8 @@ ZoomQueryOK(recs2, s, e, res) ==   \* recs2, res: sequences of <<start, end>>
   /\ IsSubseq(SelectSeq(recs2, LAMBDA x : x[1] < e /\ x[2] > s), res)
   /\ IsSubseq(res, SelectSeq(recs2, LAMBDA x : x[2] >= s /\ x[1] <= e))
 
+\* the records of one chromosome are contiguous (chromosomes follow each other in id = first-appearance order)
+GroupedByChrom(recs) == \A i, j \in 1..Len(recs) : (i < j /\ recs[i][1] = recs[j][1]) => \A k \in i..j : recs[k][1] = recs[i][1]
 LevelsIncreasing(levels) == \A i \in 2..Len(levels) : levels[i-1] < levels[i]
 
 (***************************************************************************)
